@@ -21,7 +21,7 @@ RULE = ("seeded runs; scenarios: S0 plant a prefix D[:k] of a real index documen
         "runs, S4 two or three interleaved writers (option / tool, also the tool run for several "
         "images of one ScanSAR product at once) (+readers) at write-chunk granularity under the "
         "seeded scheduler, S4b ALL interleavings of those writers at protocol-step granularity "
-        "(mkdir / open / close / rename / unlink; depth-first, capped at 48 quick / 400 thorough "
+        "(mkdir / open / close / rename / unlink; depth-first, capped at 32 quick / 400 thorough "
         "schedules per run), S5 a creating call (option / tool) that fails with ENOSPC at byte k / "
         "at its n-th disk operation WHILE a default open is under way: all interleavings of the "
         "reader's probes and opens with the writer's steps (latest deviations first, capped at "
@@ -61,7 +61,7 @@ def generate(rng, tier, index):
         return {"scenario": "S0", "world": wp, "location": ["user", "adjacent"][index % 2],
                 "image": 0, "others": "none", "ks": [{"shard": [index % SHARDS, SHARDS]}],
                 "exhaustive": True}
-    scenario = rng.choice(["S0", "S0", "S0", "S1", "S1", "S2", "S3", "S4", "S4", "S5"])
+    scenario = rng.choice(["S0", "S0", "S0", "S1", "S1", "S2", "S3", "S4", "S4", "S4", "S5"])
     if scenario == "S0":
         wp = _small_world(rng, ("local", "file", "simfs", "simfs_opt"))
         n_k = 16 if tier == "quick" else 40
@@ -102,7 +102,7 @@ def generate(rng, tier, index):
         plan["at"] = rng.choice([{"abs": 0}, {"abs": 1}, {"frac": rng.random()}, {"fromend": 1},
                                  {"event": rng.randrange(1, 6)}])
         plan["preexisting"] = rng.choice(["none", "complete"])
-        plan["cap"] = 40 if tier == "quick" else 300
+        plan["cap"] = 24 if tier == "quick" else 300
         return plan
     if scenario == "S3":
         plan["nth"] = rng.randrange(len(wp["images"]))
@@ -122,11 +122,11 @@ def generate(rng, tier, index):
                                        max_pixels=6, large=0.0, huge=0.0, level="1.1",
                                        n_images=rng.choice([2, 3]), one_pol_scans=True)
             plan["world"] = wp = wp2
-    if rng.random() < 0.5:
+    if rng.random() < 0.35:
         # instead of one seeded schedule at write-chunk granularity: ALL interleavings of the
         # writers at protocol-step granularity (open / close / rename / unlink / mkdir ...)
         plan["s4_mode"] = "boundaries"
-        plan["cap"] = 48 if tier == "quick" else 400
+        plan["cap"] = 32 if tier == "quick" else 400
     plan["cli_image"] = rng.randrange(len(wp["images"]))
     plan["cli_images"] = [(plan["cli_image"] + i) % len(wp["images"])
                           for i in range(len(plan["writers"]))]
